@@ -50,6 +50,8 @@ pub struct Outcome {
     pub obs: Vec<String>,
     /// every step with its full response (backend differential)
     pub full_obs: Vec<String>,
+    /// the child process died while executing the last step (exit status text)
+    pub died: Option<String>,
     pub n_steps: usize,
 }
 
@@ -68,6 +70,9 @@ pub struct Run {
     /// a marker changed (append / mark) since the last reopen or settle sleep
     marker_changed: bool,
 }
+
+/// exit status the H1 hook uses for a planned death
+pub const DIE_STATUS: &str = "137";
 
 pub const DATA_DIR: &str = "data";
 pub const KEY: &str = "k";
@@ -94,6 +99,97 @@ impl Run {
         };
         r.spawn_and_open()?;
         Ok(r)
+    }
+
+    /// Like `new`, but a failing/dying first open is reported through `out` instead of an error
+    /// (crash engine: the process may be planned to die inside `Walrus::new`).
+    pub fn new_lazy(cfg: &Cfg, opts: RunOpts) -> Run {
+        let scratch = Scratch::new(opts.disk);
+        let pool = topic_pool();
+        let topics: Vec<String> = cfg.topics.iter().map(|i| pool[*i as usize % pool.len()].clone()).collect();
+        let init = Init { base: scratch.s(), fd_backend: opts.force_fd.unwrap_or(cfg.fd), topics: topics.clone(), ack_log: None };
+        Run {
+            cfg: cfg.clone(),
+            opts,
+            scratch,
+            init,
+            child: None,
+            model: InstModel::new(cfg.mode.clone(), topics.len()),
+            cache: HashMap::new(),
+            seq: 0,
+            out: Outcome::default(),
+            pending_peek: None,
+            reopens: 0,
+            marker_changed: false,
+        }
+    }
+
+    /// spawn + open; Ok(resp of open)
+    pub fn start(&mut self) -> Result<Resp, String> {
+        let c = ChildProc::spawn(&self.init, &self.opts.spawn).map_err(|e| format!("spawn: {}", e))?;
+        self.child = Some(c);
+        let op = self.open_op();
+        let r = self.child.as_mut().unwrap().call(&op);
+        self.out.trace.push(format!("open -> {}", r.short()));
+        if !matches!(r, Resp::Ok) {
+            self.child = None;
+        }
+        Ok(r)
+    }
+
+    /// number of H1 foreground events so far (hooks build)
+    pub fn io_count(&mut self) -> Option<u64> {
+        match self.child.as_mut()?.call(&Op::IoCount) {
+            Resp::Num(n) => Some(n),
+            _ => None,
+        }
+    }
+
+    /// Read everything every topic still delivers (consuming), without judging it.
+    pub fn drain_collect(&mut self, use_batch: bool) -> Result<Vec<Vec<Ent>>, String> {
+        let nt = self.model.topics.len();
+        let mut all = Vec::new();
+        for t in 0..nt as u32 {
+            let mut got: Vec<Ent> = Vec::new();
+            let mut empties = 0;
+            let mut guard = 200_000usize;
+            let mut flip = false;
+            while empties < 2 && guard > 0 {
+                guard -= 1;
+                flip = !flip;
+                let op = if use_batch && flip {
+                    Op::BatchRead { inst: 0, t, budget: 4 << 20, ck: true, off: None }
+                } else {
+                    Op::ReadNext { inst: 0, t, ck: true }
+                };
+                let r = match self.child.as_mut() {
+                    Some(c) => c.call(&op),
+                    None => return Err("no child".into()),
+                };
+                match r {
+                    Resp::Some(e) => {
+                        got.push(e);
+                        empties = 0;
+                    }
+                    Resp::None => empties += 1,
+                    Resp::List(v) => {
+                        if v.is_empty() {
+                            empties += 1;
+                        } else {
+                            empties = 0;
+                            got.extend(v);
+                        }
+                    }
+                    other => {
+                        self.out.trace.push(format!("drain {:?} -> {}", op, other.short()));
+                        return Err(format!("{:?} -> {}", op, other.short()));
+                    }
+                }
+            }
+            self.out.trace.push(format!("drain topic {} -> {} entries", t, got.len()));
+            all.push(got);
+        }
+        Ok(all)
     }
 
     pub fn open_op(&self) -> Op {
@@ -438,6 +534,7 @@ impl Run {
                 }
                 if let Resp::Died(m) = &resp {
                     self.child = None;
+                    self.out.died = Some(m.clone());
                     return viol(Oracle::Crash, format!("process died during {:?}: {}", op, m));
                 }
                 {
